@@ -39,6 +39,7 @@ theorem checkThresholds_ok {v : PyVal} {n : Nat} {r : PyVal} (h : checkThreshold
   | num q => simp [checkThresholds, typeError] at h
   | bool b => simp [checkThresholds, typeError] at h
   | none => simp [checkThresholds, typeError] at h
+  | other t => simp [checkThresholds, typeError] at h
 
 theorem optFlat_ok {v : PyVal} {n : Nat} {r : PyVal} (h : optFlat v n = .ok r) :
     (v = .none ∧ r = .none) ∨ (given v = true ∧ IsFlatNorm n r) := by
@@ -48,6 +49,7 @@ theorem optFlat_ok {v : PyVal} {n : Nat} {r : PyVal} (h : optFlat v n = .ok r) :
   | bool b => right; exact ⟨rfl, flat_result_norm (by simpa [optFlat] using h)⟩
   | str s => right; exact ⟨rfl, flat_result_norm (by simpa [optFlat] using h)⟩
   | list xs => right; exact ⟨rfl, flat_result_norm (by simpa [optFlat] using h)⟩
+  | other t => right; exact ⟨rfl, flat_result_norm (by simpa [optFlat] using h)⟩
 
 theorem optNested_ok {v : PyVal} {n : Nat} {r : PyVal} (h : optNested v n = .ok r) :
     r = .list [] ∨ IsNestedNorm n r := by
@@ -64,6 +66,7 @@ theorem optCheck_ok {v : PyVal} {n : Nat} {r : PyVal} (h : optCheck v n = .ok r)
   | bool b => have := checkThresholds_ok (by simpa [optCheck] using h) hn; exact ⟨this.1, Or.inr this.2⟩
   | str s => have := checkThresholds_ok (by simpa [optCheck] using h) hn; exact ⟨this.1, Or.inr this.2⟩
   | list xs => have := checkThresholds_ok (by simpa [optCheck] using h) hn; exact ⟨this.1, Or.inr this.2⟩
+  | other t => have := checkThresholds_ok (by simpa [optCheck] using h) hn; exact ⟨this.1, Or.inr this.2⟩
 
 theorem checkTasks_ok {sup : List String} {d : Dict} {t : String} (h : checkTasks sup d = .ok t) :
     d.lookup "evaluation_task" = some (.str t) ∧ t ∈ sup := by
